@@ -4,7 +4,9 @@ Always-on search on the real code: programs of the documented subset (systematic
 operator x ordered width pair from {2,3,4} x operand kinds var/var, var/const, const/var, shifts,
 if-expressions, every statement form / builtin / container type once; if / if-else / elif statements
 whose test reads a variable that a branch re-assigns - 21 test forms x 7 placements + 20 hand-written
-latch / countdown / chain programs; then random mixed-width expressions, statement programs and
+latch / countdown / chain programs; 192 chained comparisons (2 / 3 links, constants in every position, written directly,
+made constant by loop variables / constant variables, in if tests / if-expressions / and-or-not) and other constant-folded
+nodes in loop bodies - outside the subset: rejected, or accepted with python's meaning; then random mixed-width expressions, statement programs and
 random members of the re-assigned-test class) are compiled with the real
 `qlassf(src, to_compile=False)` under defaultOptimizer AND fastOptimizer; `qf.expressions` is evaluated on ALL argument assignments by the
 harness' own evaluator (`bexp.eval_json`).  Oracle, independent of qlasskit: `harness/pysem.py`
